@@ -1,4 +1,4 @@
-\* strict design: every C11 invariant must hold
+\* strict design: every C11 invariant must hold (Level/MaxOps are replaced by the check)
 SPECIFICATION MCSpec
 CONSTANTS
   Keys = {1, 2, 3}
@@ -7,8 +7,6 @@ CONSTANTS
   Dev = {}
   NOW = 10
   MaxOps = 3
-  Level = 1
-  ClaimReqs <- MCClaimReqs
-  IntOps <- MCIntOps
+  Level = 0
 CONSTRAINT Bounded
 INVARIANTS Disjoint MatchedAtClaim NoResurrection AtMostN IndexOrder NoGhost LockOK
